@@ -17,7 +17,7 @@ ASSUMPTIONS = [
     'acceptance is exercised through the Rock Ridge facade (the only facade that derives ISO9660 identifiers)',
 ]
 
-ALPHA = ['a', 'A', 'z', '1', '_', '.', '-', ' ', 'ß', 'ŉ', 'ﬁ', 'ı', 'İ', 'é', '中', '𝒜', '\x01', '\n', '\x7f', '́', ';']
+ALPHA = ['a', 'A', 'z', '1', '_', '.', '-', ' ', 'ß', 'ŉ', 'ﬁ', 'ı', 'İ', 'é', '中', '𝒜', '\x01', '\n', '\x7f', '́', ';', '٣', '２']   # incl. two non-ASCII decimal digits
 
 
 def family_strings():
@@ -194,6 +194,140 @@ def collision_sets():
 
 
 BOUNDS = {'quick': (4, 3), 'thorough': (5, 4)}      # (pure string length, acceptance string length)
+FACADE_DEPTH = {'quick': 4, 'thorough': 5}
+
+# ----------------------------------------------------------------------------- (d) facade histories
+# One Rock Ridge facade object is kept for a whole history; entries are also created and removed "behind its back"
+# through the PyCdlib object, re-using ISO9660 names under other Rock Ridge names.  The facade must address the entry its
+# Rock Ridge path names every time (never a different one because of a name / path the library derived earlier).
+
+F_A = b'facade-a'
+F_B = b'facade-bb'
+FACADE_OPS = {
+    'Fmk_docs': [('F', 'add_directory', '/docs')],
+    'Fmk_archive': [('F', 'add_directory', '/archive')],
+    'Fadd_docs_a': [('F', 'add_fp', '/docs/a.txt', F_A)],
+    'Fadd_archive_a': [('F', 'add_fp', '/archive/a.txt', F_B)],
+    'Frm_docs_a': [('F', 'rm_file', '/docs/a.txt')],
+    'Frm_docs': [('F', 'rm_directory', '/docs')],
+    'Prm_DOCS': [('P', 'rm_directory', '/DOCS')],
+    'Pmk_DOCS_as_archive': [('P', 'add_directory', '/DOCS', 'archive')],
+    'Pmk_DOCS2_as_docs': [('P', 'add_directory', '/DOCS2', 'docs')],
+    # macro steps (keep the interesting histories within the depth bound)
+    'M_docs_with_file': [('F', 'add_directory', '/docs'), ('F', 'add_fp', '/docs/a.txt', F_A)],
+    'M_empty_and_drop_DOCS': [('F', 'rm_file', '/docs/a.txt'), ('P', 'rm_directory', '/DOCS')],
+    'M_swap': [('P', 'add_directory', '/DOCS', 'archive'), ('P', 'add_directory', '/DOCS2', 'docs')],
+}
+
+
+def run_facade_history(names):
+    """Returns violations for one history (list of FACADE_OPS keys)."""
+    import io as _io
+    env.reset()
+    iso = env.PyCdlib()
+    iso.new(interchange_level=3, rock_ridge='1.09')
+    f = iso.get_rock_ridge_facade()
+    keep = []
+    model = {'/': {'kind': 'dir', 'iso': '/'}}      # rr path -> entry
+
+    def parent(p):
+        return p.rsplit('/', 1)[0] or '/'
+
+    def children(p):
+        pre = p.rstrip('/') + '/'
+        return [q for q in model if q != p and q.startswith(pre)]
+    viols = []
+    for name in names:
+        for op in FACADE_OPS[name]:
+            who, call = op[0], op[1]
+            # what the reference model says
+            if who == 'F':
+                rrp = op[2]
+                if call in ('add_directory', 'add_fp'):
+                    legal = rrp not in model and parent(rrp) in model and model[parent(rrp)]['kind'] == 'dir'
+                elif call == 'rm_file':
+                    legal = rrp in model and model[rrp]['kind'] == 'file'
+                else:
+                    legal = rrp in model and model[rrp]['kind'] == 'dir' and not children(rrp)
+            else:
+                isop = op[2]
+                byiso = [q for q, e in model.items() if e['iso'] == isop]
+                if call == 'add_directory':
+                    legal = not byiso and ('/' + op[3]) not in model
+                else:
+                    legal = bool(byiso) and model[byiso[0]]['kind'] == 'dir' and not children(byiso[0])
+            try:
+                if who == 'F':
+                    if call == 'add_directory':
+                        f.add_directory(op[2], 0o040555)
+                    elif call == 'add_fp':
+                        fp = _io.BytesIO(op[3])
+                        keep.append(fp)
+                        f.add_fp(fp, len(op[3]), op[2], 0o100444)
+                    elif call == 'rm_file':
+                        f.rm_file(op[2])
+                    else:
+                        f.rm_directory(op[2])
+                else:
+                    if call == 'add_directory':
+                        iso.add_directory(op[2], rr_name=op[3])
+                    else:
+                        iso.rm_directory(op[2])
+                accepted = True
+            except env.InvalidInput:
+                accepted = False
+            except Exception as ex:
+                return [{'clause': 'facade calls are accepted or refused with the invalid-input error', 'cls': '%s %s' % (call, type(ex).__name__),
+                         'msg': '%s in %s raised %s: %s' % (op[:3], names, type(ex).__name__, str(ex)[:120])}]
+            if accepted and not legal:
+                return [{'clause': 'the facade addresses the entry its Rock Ridge path names', 'cls': 'accepted %s %s' % (who, call),
+                         'msg': '%s accepted in %s although the reference model refuses it (model: %s)' % (op[:3], names, sorted(model))}]
+            if not accepted:
+                continue      # an unexpected refusal is not a clause of this property (ISO9660 name taken, ...)
+            if who == 'F':
+                rrp = op[2]
+                if call in ('add_directory', 'add_fp'):
+                    # the ISO9660 name is the one the library derived: read it back (the oracle is about the Rock Ridge tree)
+                    try:
+                        rec = iso.get_record(rr_path=rrp)
+                        isop = iso.full_path_from_dirrecord(rec)
+                    except env.PyCdlibException:
+                        isop = '?' + rrp
+                    model[rrp] = {'kind': 'dir' if call == 'add_directory' else 'file', 'iso': isop, 'data': op[3] if call == 'add_fp' else None}
+                else:
+                    del model[rrp]
+            else:
+                if call == 'add_directory':
+                    model['/' + op[3]] = {'kind': 'dir', 'iso': op[2], 'data': None}
+                else:
+                    del model[byiso[0]]
+    # observe: the editing object and the reopened image show exactly the model's Rock Ridge tree
+    out = _io.BytesIO()
+    try:
+        iso.write_fp(out)
+    except Exception as ex:
+        return [{'clause': 'the image can be written after facade edits', 'cls': type(ex).__name__, 'msg': '%s: %s' % (names, str(ex)[:150])}]
+    iso2 = env.PyCdlib()
+    iso2.open_fp(_io.BytesIO(out.getvalue()))
+    for label, obj in (('editing object', iso), ('reopened image', iso2)):
+        fac = obj.get_rock_ridge_facade() if obj is iso2 else f
+        got = {}
+        try:
+            for dp, ds, fs in fac.walk('/'):
+                got[dp] = ('dir', None)
+                for fn in fs:
+                    p = (dp.rstrip('/') + '/' + fn)
+                    o = _io.BytesIO()
+                    fac.get_file_from_iso_fp(o, p)
+                    got[p] = ('file', o.getvalue())
+        except Exception as ex:
+            return [{'clause': 'the facade can walk and read what it created', 'cls': '%s %s' % (label, type(ex).__name__), 'msg': '%s: %s' % (names, str(ex)[:150])}]
+        want = dict((p, (e['kind'], e.get('data'))) for p, e in model.items())
+        if got != want:
+            diff = sorted(set(got.items()) ^ set(want.items()))[:4]
+            return [{'clause': 'the facade addresses the entry its Rock Ridge path names', 'cls': '%s tree differs' % label,
+                     'msg': '%s: %s' % (names, diff)}]
+    return viols
 
 
 def tasks(tier):
@@ -208,6 +342,9 @@ def tasks(tier):
     cs = list(collision_sets())
     for i in range(8):
         out.append({'kind': 'collide', 'sets': cs[i::8]})
+    for a in sorted(FACADE_OPS):
+        for b in sorted(FACADE_OPS):
+            out.append({'kind': 'facade', 'prefix': [a, b], 'depth': FACADE_DEPTH[tier]})
     return out
 
 
@@ -224,6 +361,16 @@ def run_task(task):
                 s = task['first'] + ''.join(t)
                 rec(f(s, res), s)
         res.sample({'kind': task['kind'], 'first': task['first'], 'maxlen': task['maxlen']})
+    elif task['kind'] == 'facade':
+        keys = sorted(FACADE_OPS)
+        for n in range(0, task['depth'] - 1):
+            for rest in itertools.product(keys, repeat=n):
+                hist = task['prefix'] + list(rest)
+                if n == 0 and task['prefix'][1] == keys[0]:
+                    rec(run_facade_history(task['prefix'][:1]), task['prefix'][:1])     # depth-1 histories, once
+                    res.count('facade_histories')
+                rec(run_facade_history(hist), hist)
+                res.count('facade_histories')
     elif task['kind'] == 'family':
         for s in task['strings']:
             rec(check_pure(s, res), s)
@@ -236,6 +383,8 @@ def run_task(task):
 
 def check_case(case):
     r = Result()
+    if case['kind'] == 'facade':
+        return run_facade_history(case['s'])
     if case['kind'] == 'collide':
         return check_collisions(case['s'], r)
     if case['kind'] == 'pure':
@@ -273,4 +422,6 @@ def coverage(tier, r):
         'exhaustive': True,
         'acceptance_evaluations': r.n.get('acceptance_evaluations', 0),
         'collision_evaluations': r.n.get('collision_evaluations', 0),
+        'facade_histories': r.n.get('facade_histories', 0),
+        'facade_rule': 'every history of at most %d steps over %d facade / direct operations (one Rock Ridge facade object kept for the history)' % (FACADE_DEPTH[tier], len(FACADE_OPS)),
     }
